@@ -566,8 +566,7 @@ def run_family(ctx, pid, replay_cases=None):
         "Sched model (coq/Sched/Model.v): goroutine scheduling = arbitrary interleaving of the mutex-delimited sections "
         "of scheduler.go/node.go; isReady's dependency reads as one atomic read; node teardown (log flush) does not fail; "
         "steps with both retryPolicy and repeatPolicy are outside the model",
-        "theorem premise donech = true: Schedule is called with a done channel, as agent.go:190,368 always does "
-        "(with done == nil the model contains the stale-worker flip, lemma stale_flip_refuted)",
+        "no premise about Schedule's done channel any more (fix f9e55a3; the flip scenario is run as stream `flip` of C01)",
         "scripted executor `verifscript` (harness/cmd/sched) stands for the command executor; retry intervals are observed "
         "with a tolerance of %d us, never proved" % EPS,
     ]
@@ -579,8 +578,7 @@ def run_family(ctx, pid, replay_cases=None):
         "projection and final table); its completeness is what this run measures",
     ]
     ctx.assumptions = ["runs without stop request / timeout (those are C04/C05)", "no repeatPolicy steps in the generated DAGs",
-                       "Schedule is given a done channel as the agent does (1 run in 16 passes nil like the package's tests; the "
-                       "stale-worker flip of that path is a recorded finding: findings/C01-done-nil-stale-flip.json)"]
+                       "Schedule is given a done channel as the agent does in 15 of 16 runs, nil (like the package's tests) in the rest"]
     if pid == "C03" and replay_cases is None:
         dbg("agent dry part")
         agent_dry_part(ctx)
